@@ -235,6 +235,76 @@ async def shared_quic(out, args, wd, oport):
         B.kill()
 
 
+async def balancer_member_outages(out, args, wd, oport):
+    """a round-robin balancer over two upstream proxies, one of which goes away and comes back several times while requests keep
+    arriving (so the balancer accumulates many failed member connects over its life): after every return - verified by connecting
+    to the member ourselves - requests through the balancer must succeed again within the usual three attempts, and a request that
+    goes to the healthy member meanwhile is only counted. Nothing the balancer remembers from failures may outlive the outage."""
+    from .lib import http_connect
+    PB = [{k: free_port() for k in ("http", "api")} for _ in range(2)]
+    PA = {k: free_port() for k in ("http", "api")}
+    Bs = [Proxy(args.bin, base_cfg([{"name": "http", "bind": "127.0.0.1:%d" % PB[i]["http"]}], [{"name": "direct"}], [{"target": "direct"}], metrics_port=PB[i]["api"]), "LBM%d" % i, wd) for i in range(2)]
+    A = Proxy(args.bin, base_cfg([{"name": "http", "bind": "127.0.0.1:%d" % PA["http"]}],
+                                 [{"name": "m0", "type": "http", "server": "127.0.0.1", "port": PB[0]["http"]}, {"name": "m1", "type": "http", "server": "127.0.0.1", "port": PB[1]["http"]},
+                                  {"name": "lb", "type": "loadbalance", "connectors": ["m0", "m1"], "algo": "rr"}], [{"target": "lb"}], metrics_port=PA["api"]), "LBA", wd)
+
+    async def one():
+        c = None
+        try:
+            c = await open_conn("127.0.0.1", PA["http"])
+            st, _ = await asyncio.wait_for(http_connect(c, "127.0.0.1", oport), 5)
+            if st != 200:
+                return False, st
+            c.write(b"ping")
+            await c.drain()
+            return (await c.read_exact(4, timeout=5)) == b"ping", st
+        except Exception as e:
+            return False, type(e).__name__
+        finally:
+            if c is not None:
+                c.close()
+    try:
+        for B in Bs:
+            await B.start()
+        await A.start()
+        out.case()
+        for k in range(6):
+            ok, st = await one()
+            if not ok:
+                out.violation("upstream unusable before any fault: lb upstream (member outages)", {"status": st, "request": k})
+                return
+        failed_total = 0
+        for cycle in range(4 if args.thorough else 3):
+            out.case()
+            victim = Bs[cycle % 2]
+            victim.kill()
+            ok_n = fail_n = 0
+            for k in range(14 + 6 * cycle):
+                ok, st = await one()
+                ok_n += ok
+                fail_n += (not ok)
+            failed_total += fail_n
+            await victim.start()     # returns once we could connect to its listener ourselves
+            attempts = []
+            t0 = now()
+            for k in range(6):
+                ok, st = await one()
+                attempts.append(st if not ok else "ok")
+            good = attempts[:6].count("ok")
+            out.nontrivial(("lb-member-outages", cycle, fail_n > 0, good))
+            out.count("balancer_requests_failed_during_member_outages", fail_n)
+            out.count("balancer_requests_served_by_the_healthy_member_during_outages", ok_n)
+            if "ok" not in attempts[:3]:
+                out.violation("service through the load balancer does not resume after a member's outage ended (the member accepts connections again)",
+                              {"cycle": cycle, "attempts_after_return": attempts, "failed_member_connects_so_far": failed_total, "seconds": round(now() - t0, 1)})
+                return
+        out.sample({"scenario": "round-robin balancer, members going away and returning in turn", "cycles": cycle + 1, "failed_requests_during_outages": failed_total})
+    finally:
+        A.kill()
+        for B in Bs:
+            B.kill()
+
+
 async def halfclosed_after_outage(out, args, wd):
     """the origin goes away in the orderly way (FIN) while the client is passive: the proxy can only half-close towards the client
     at first, but the tunnel must not stay around for ever - with an idle period of 3 s it is gone (both sides closed, recorded)
@@ -687,7 +757,7 @@ async def main(args):
         await A.start()
         hs = asyncio.ensure_future(healthy_stream())
         await asyncio.sleep(0.3)
-        await asyncio.gather(*([run_scenario(s) for s in scen] + [udp_outage(out, args, wd), shared_quic(out, args, wd, O.port), halfclosed_after_outage(out, args, wd), died_mid_handshake(out, args, wd)]))
+        await asyncio.gather(*([run_scenario(s) for s in scen] + [udp_outage(out, args, wd), shared_quic(out, args, wd, O.port), halfclosed_after_outage(out, args, wd), died_mid_handshake(out, args, wd), balancer_member_outages(out, args, wd, O.port)]))
         stop_healthy.set()
         await hs
         bad = [(round(t, 1), r, round(l, 2)) for (t, r, l) in healthy if r != "ok" or l > 2.0]
